@@ -75,7 +75,7 @@ func (P *Prog) atomOf(f Fact) (atom string, val bool, ok bool) {
 
 // requestFieldOf: v is the Data of t.GetField(FieldX) (or hotline.GetField(FieldX, ..)) → "FieldX".
 func (P *Prog) requestFieldOf(v ssa.Value) string {
-	v = stripConv(v)
+	v = stripConv(resolveLocal(stripConv(v)))
 	u, ok := v.(*ssa.UnOp)
 	if !ok || u.Op != token.MUL {
 		// hotline.GetField(...) != nil tests the *Field itself
@@ -370,7 +370,30 @@ func checkC05(R *Run) {
 				priv = *r.Priv
 			}
 			cut, cond := P.guardCutsCond(fn, own, req, priv, atomsSeen)
-			reach := reachableCond(fn, cut, cond)
+			// the scenario fixes what these calls return: Authorize(X) on the requester is false, the context tests
+			// answer as the context says (this reaches a test whose outcome was combined in a bool expression first)
+			seed := nilState{}
+			for _, ci := range callsIn(fn) {
+				c, isCall := ci.(*ssa.Call)
+				if !isCall {
+					continue
+				}
+				if priv >= 0 && calleeName(&c.Call) == "(*hotline.ClientConn).Authorize" && len(c.Call.Args) == 2 && c.Call.Args[0] == own {
+					if k, ok := constInt(c.Call.Args[1]); ok && int(k) == priv {
+						seed[c] = 1
+					}
+				}
+				if atom, val, ok := P.atomOf(Fact{V: c, Kind: "truth", Holds: true}); ok && val {
+					if want, has := req[atom]; has {
+						if want {
+							seed[c] = 2
+						} else {
+							seed[c] = 1
+						}
+					}
+				}
+			}
+			reach := reachableCondSeed(fn, cut, cond, seed)
 			construct := fmt.Sprintf("%d %s [%s priv=%s → %s]", reg.Num, fname(fn), r.Ctx, privStr(r.Priv), strings.Join(r.Effects, ","))
 			var bad []string
 			var path []string
